@@ -81,13 +81,16 @@ def _need_loop(L, size_of, what):
 def update_coins(ctx, P):
     f = ctx.used(P.fn("UpdateCoins"))
     sub = naming(f, P)
-    loops = [st for st in stmts(f.body) if st.get("k") == "foreach" and match([".", ["param", "tx"], "CTransaction::vin"], st.get("range"))]
-    ok = len(loops) == 1 and _no_early_exit(loops[0]["b"])
-    ctx.ob("UpdateCoins/input-loop", "SYMMETRY", "UpdateCoins visits every input of the transaction in vin order (range-for over tx.vin without early exit)", ok, f.where)
+    vin = [".", ["param", "tx"], "CTransaction::vin"]
+    loops = [st for st in stmts(f.body) if (st.get("k") == "foreach" and match(vin, st.get("range"))) or (st.get("k") == "for" and _index_loop(st, vin) is not None)]
+    if len(loops) != 1:
+        raise AnalysisBroken("UpdateCoins: loop over tx.vin not recognised")
+    ok = (loops[0]["k"] == "foreach" or _index_loop(loops[0], vin) == "asc") and _no_early_exit(loops[0]["b"])
+    ctx.ob("UpdateCoins/input-loop", "SYMMETRY", "UpdateCoins visits every input of the transaction in vin order (loop over tx.vin without early exit)", ok, f.where)
     if not ok:
         return
     L = loops[0]
-    lv = L["var"]["n"]
+    elem = ["local", L["var"]["n"]] if L["k"] == "foreach" else ["idx", vin, ["local", L["init"]["n"]]]
     vprev = [".", ["param", "txundo"], "CTxUndo::vprevout"]
     grow = lambda e: is_expr(e) and e[0] == "mcall" and e[1] in ("std::vector::emplace_back", "std::vector::push_back") and match(vprev, e[2])
     gs = sites(f, grow, P)
@@ -104,7 +107,7 @@ def update_coins(ctx, P):
                 "UpdateCoins")
     for s in sites(f, spend, P):
         a = call_args(s.expr)
-        ok = (match(["param", "inputs"], call_obj(s.expr)) and match([".", ["local", lv], "CTxIn::prevout"], a[0]) and len(a) >= 2
+        ok = (match(["param", "inputs"], call_obj(s.expr)) and match([".", elem, "CTxIn::prevout"], a[0]) and len(a) >= 2
               and match(["u", "&", ["mcall", "std::vector::back", vprev]], a[1]))
         ctx.ob("UpdateCoins/spend-target@L%s" % s.line, "SYMMETRY", "the coin spent is the current input's prevout and it is moved into the last (just appended) undo slot", ok, s.where,
                {"args": [show(x) for x in a]})
@@ -277,29 +280,47 @@ def disconnect_block(ctx, P):
     ctx.ob("DisconnectBlock/all-noncoinbase-restored", "SYMMETRY", "the input restoration is skipped only for the coinbase (i == 0)", F.counterexample(F.parse("NONCOINBASE"), fb2) is None,
            ap[0].where, {"guard": F.fshow(fb2)})
     # ---- outputs
-    O = [st for st in enclosing(sp[0]) if st is not T]
-    ok = len(O) == 1
+    vout = [".", ["local", tx], "CTransaction::vout"]
+    every = [st for st in stmts(T["b"]) if st.get("k") in ("for", "foreach") and _loop_lines(st)[0] <= sp[0].line <= _loop_lines(st)[1]]
+    ok = len(every) == 1
+    oi = None
     if ok:
-        O = O[0]
-        oi = O["init"]["n"]
-        vout = [".", ["local", tx], "CTransaction::vout"]
-        ok = _need_loop(O, vout, "DisconnectBlock output loop") in ("asc", "desc") and _no_early_exit(O["b"])
+        O = every[0]
+        if O["k"] == "foreach":      # range-for over tx.vout with a separate position counter
+            if not match(vout, O.get("range")):
+                raise AnalysisBroken("DisconnectBlock: output loop range not recognised (line %s)" % O.get("l"))
+            ok = _no_early_exit(O["b"])
+        else:
+            oi = O["init"]["n"]
+            ok = _need_loop(O, vout, "DisconnectBlock output loop") in ("asc", "desc") and _no_early_exit(O["b"])
     ctx.ob("DisconnectBlock/output-loop", "SYMMETRY", "every output index of the transaction is examined (0 .. vout.size()-1, no early exit)", bool(ok), sp[0].where)
     if ok:
+        a = call_args(sp[0].expr)
+        od = [st for st in stmts(O["b"]) if st.get("k") == "decl" and a[0][0] == "local" and st.get("n") == a[0][1]]
+        okp = len(od) == 1 and match(["ctor", "COutPoint", ["local", ANY], ["local", ANY]], od[0].get("i"))
+        hashok = False
+        if okp:
+            hl, pl = od[0]["i"][2][1], od[0]["i"][3][1]
+            hashok = hl in decls and match(["mcall", "CTransaction::GetHash", ["local", tx]], decls[hl].get("i"))
+            if oi is not None:
+                okp = pl == oi
+            else:
+                # the position counter: declared 0 in the transaction iteration, incremented exactly once per output, after the outpoint was formed
+                body = O["b"].get("s", []) if O["b"].get("k") == "seq" else [O["b"]]
+                muts = [(st_, x) for st_, e in all_exprs(T.get("b")) for x in subexprs(e)
+                        if ((x[0] == "b" and x[1] in ASSIGN_OPS) or (x[0] == "u" and x[1] in ("++", "--", "post++", "post--"))) and match(["local", pl], x[2])]
+                okp = (pl in decls and match(["int", 0], decls[pl].get("i")) and decls[pl]["l"] < O.get("l") and len(muts) == 1 and muts[0][1][0] == "u"
+                       and muts[0][1][1] in ("++", "post++") and any(muts[0][0] is x for x in body) and (muts[0][0].get("l") or 0) > od[0]["l"])
+                oi = pl
+        oik = re.escape(oi or "?")
+        elem = r"(?:%s\.vout\[%s\]|each\(%s\.vout\))" % (txk, oik, txk)
         fm = F.mk_and([g.formula(sub) for g in _inner(sp[0], O.get("l"))])
-        unsp = re.compile(r"%s\.vout\[%s\]\.scriptPubKey\.IsUnspendable\(\)" % (txk, oi))
-        loopc = re.compile(r"%s < %s\.vout\.size\(\)" % (oi, txk))
+        unsp = re.compile(elem + r"\.scriptPubKey\.IsUnspendable\(\)")
+        loopc = re.compile(r"%s < %s\.vout\.size\(\)" % (oik, txk))
         fb, mp, u_ = F.bind_atoms(fm, {"UNSPENDABLE": unsp, "INRANGE": loopc})
         c1, c2 = F.counterexample(fb, F.parse("!UNSPENDABLE")), F.counterexample(F.parse("!UNSPENDABLE && INRANGE"), fb)
         ctx.ob("DisconnectBlock/spends-spendable-outputs", "SYMMETRY", "exactly the outputs that are not provably unspendable (those AddCoins created) are removed from the view",
                c1 is None and c2 is None, sp[0].where, None if c1 is None and c2 is None else {"guard": F.fshow(fm), "unbound": u_})
-        a = call_args(sp[0].expr)
-        od = [st for st in stmts(O["b"]) if st.get("k") == "decl" and a[0][0] == "local" and st.get("n") == a[0][1]]
-        okp = len(od) == 1 and match(["ctor", "COutPoint", ANY, ["local", oi]], od[0].get("i")) or (len(od) == 1 and contains(["local", oi], od[0].get("i") or []) and "COutPoint" in show(od[0].get("i")))
-        hashok = False
-        if len(od) == 1:
-            h = [x for x in subexprs(od[0].get("i")) if x[0] == "local" and x[1] != oi]
-            hashok = len(h) == 1 and h[0][1] in decls and match(["mcall", "CTransaction::GetHash", ["local", tx]], decls[h[0][1]].get("i"))
         ctx.ob("DisconnectBlock/spent-outpoint", "SYMMETRY", "the outpoint removed is (tx.GetHash(), o) in the view being disconnected", bool(okp) and hashok and match(["param", "view"], call_obj(sp[0].expr)), sp[0].where)
         # mismatch -> unclean
         coin = a[1][2][1] if match(["u", "&", ["local", ANY]], a[1]) else None
@@ -309,7 +330,7 @@ def disconnect_block(ctx, P):
         if coin and len(cl) == 1:
             fm = F.mk_and([g.formula(sub) for g in _inner(cl[0], O.get("l"))])
             ck = re.escape(coin)
-            txo = r"%s\.vout\[%s\]" % (txk, oi)
+            txo = elem
             atoms2 = {"UNSPENDABLE": unsp, "INRANGE": loopc,
                       "SPENT": re.compile(r"view\.SpendCoin\(\w+, &%s\)" % ck),
                       "SAMEOUT": re.compile(r"(%s == %s\.out|%s\.out == %s)" % (txo, ck, ck, txo)),
